@@ -125,4 +125,20 @@ void vs_init(void);
 
 uint64_t vs_fnv(uint64_t h, const void *p, size_t n);
 
+/* extension-field slots (b_fpx_types.c): FPX(i, 12) yields a pointer usable as fp12_t */
+void *vs_getx(uint64_t idx, int type, int deg);
+#define FPXP(i, deg) (vs_getx(c->a[i], VT_FPX, deg))
+#define FP2(i) (*(fp2_t *)FPXP(i, 2))
+#define FP3(i) (*(fp3_t *)FPXP(i, 3))
+#define FP4(i) (*(fp4_t *)FPXP(i, 4))
+#define FP6(i) (*(fp6_t *)FPXP(i, 6))
+#define FP8(i) (*(fp8_t *)FPXP(i, 8))
+#define FP9(i) (*(fp9_t *)FPXP(i, 9))
+#define FP12(i) (*(fp12_t *)FPXP(i, 12))
+#define FP16(i) (*(fp16_t *)FPXP(i, 16))
+#define FP18(i) (*(fp18_t *)FPXP(i, 18))
+#define FP24(i) (*(fp24_t *)FPXP(i, 24))
+#define FP48(i) (*(fp48_t *)FPXP(i, 48))
+#define FP54(i) (*(fp54_t *)FPXP(i, 54))
+
 #endif
